@@ -85,6 +85,21 @@ pub fn check_consistent(b: &Board, what: &str) -> Result<(), Failure> {
     if s != r {
         return Err(Failure::new(format!("{}: stored state differs from recomputation: {}", what, snap_diff(&s, &r))));
     }
+    // the two-argument accessor and the derived en-passant destination (secondary entry points to the same state)
+    for col in [owlchess::Color::White, owlchess::Color::Black] {
+        for pc in [owlchess::Piece::Pawn, owlchess::Piece::King, owlchess::Piece::Knight, owlchess::Piece::Bishop, owlchess::Piece::Rook, owlchess::Piece::Queen] {
+            let cell = Cell::from_parts(col, pc);
+            if b.piece2(col, pc).as_raw() != r.pieces[cell.index()] {
+                return Err(Failure::new(format!("{}: piece2({:?}, {:?}) = {:#x}, the squares give {:#x}", what, col, pc, b.piece2(col, pc).as_raw(), r.pieces[cell.index()])));
+            }
+        }
+    }
+    let want_dest = b.raw().ep_source.map(|p| {
+        Coord::from_parts(p.file(), if b.raw().side == owlchess::Color::White { owlchess::types::Rank::R6 } else { owlchess::types::Rank::R3 })
+    });
+    if b.raw().ep_dest() != want_dest {
+        return Err(Failure::new(format!("{}: ep_dest() = {:?} with the mark on {:?} and {:?} to move", what, b.raw().ep_dest(), b.raw().ep_source, b.raw().side)));
+    }
     Ok(())
 }
 
